@@ -177,6 +177,41 @@ fn inverted_winding_checks(job: &Job, st: &mut Stats, nv: usize) {
     }
 }
 
+/// with_vertex_offset(k): the indices of the new triangles are those of the plain builder plus k, nothing else
+/// changes (also on failure)
+fn vertex_offset_checks(job: &Job, st: &mut Stats, nv: usize) {
+    use lyon_tessellation::geometry_builder::{BuffersBuilder, Positions};
+    let is_stroke = matches!(job, Job::Stroke(..) | Job::StrokeShape(_));
+    let run = |offset: u32, fail_at: Option<usize>| -> Option<(bool, usize, Vec<u32>)> {
+        let mut buffers: VertexBuffers<Point, u32> = VertexBuffers::new();
+        buffers.vertices = vec![point(-1.0, -1.0); 4];
+        buffers.indices = vec![0, 1, 2, 2, 1, 3];
+        let ok = {
+            let mut fb = FailAt { inner: BuffersBuilder::new(&mut buffers, Positions).with_vertex_offset(offset), fail_at, seen: 0 };
+            catch(AssertUnwindSafe(|| if is_stroke { exec_stroke_dyn(job, &mut fb).is_ok() } else { exec_fill_dyn(job, &mut fb).is_ok() }))?
+        };
+        Some((ok, buffers.vertices.len(), buffers.indices))
+    };
+    for fail_at in [None, Some(1usize)] {
+        if let Some(k) = fail_at {
+            if k >= nv {
+                continue;
+            }
+        }
+        st.inc("vertex_offset_runs");
+        let text = format!("with_vertex_offset(100) {:?} refusing vertex {:?}", job, fail_at);
+        match (run(0, fail_at), run(100, fail_at)) {
+            (Some((ok0, nv0, i0)), Some((ok1, nv1, i1))) => {
+                let shifted: Vec<u32> = i0.iter().enumerate().map(|(k, i)| if k < 6 { *i } else { i + 100 }).collect();
+                if ok0 != ok1 || nv0 != nv1 || shifted != i1 {
+                    st.fail(jobj(&[("what", jstr("a vertex offset changes more than the indices of the new triangles")), ("input", jstr(&text))]));
+                }
+            }
+            _ => st.fail(jobj(&[("what", jstr("tessellation with a vertex offset panicked")), ("input", jstr(&text))])),
+        }
+    }
+}
+
 /// one geometry builder object serving several tessellations in a row (batching): a failure in a later one
 /// must leave the buffers as they were after the earlier, successful ones
 fn builder_reuse_checks(jobs: &[Job], st: &mut Stats) {
@@ -356,6 +391,7 @@ pub fn main(args: &Args) -> std::io::Result<()> {
         let nv = base.seen;
         cx.st.add("fault_positions", nv as u64);
         inverted_winding_checks(job, cx.st, nv);
+        vertex_offset_checks(job, cx.st, nv);
         // the builder refuses the k-th vertex, for every k
         let step = if args.thorough() || nv <= 60 { 1 } else { (nv / 60).max(1) };
         let mut k = 0;
